@@ -181,8 +181,14 @@ fn dispatch(ctx: &mut Ctx) {
     match p.as_str() {
         "C04" => scen_core::c04(ctx),
         "C05" => scen_core::c05(ctx),
-        "C06" => scen_core::c06(ctx),
-        "C07" => scen_core::c07(ctx),
+        "C06" => {
+            scen_core::c06(ctx);
+            scen_core::c06_big(ctx);
+        }
+        "C07" => {
+            scen_core::c07(ctx);
+            scen_core::c07_big(ctx);
+        }
         #[cfg(not(feature = "full"))]
         "C09" | "C09core" => scen_core::c09(ctx),
         #[cfg(not(feature = "full"))]
